@@ -134,6 +134,53 @@ fn split_top(s: &str, sep: char) -> Vec<String> {
     out
 }
 
+/// `@include <relative path>`: splice another unit's spec (its @unit/@serves lines dropped; its functions keep their own @props,
+/// functions without @props get the included unit's @serves as @props)
+pub fn preprocess(text: &str, dir: &std::path::Path, depth: usize) -> Result<String, String> {
+    let mut out = String::new();
+    for line in text.lines() {
+        if let Some(("include", a)) = is_directive(line) {
+            if depth > 4 { return Err("@include nesting too deep".into()); }
+            let p = dir.join(a.trim());
+            let t = std::fs::read_to_string(&p).map_err(|e| format!("@include {}: {}", p.display(), e))?;
+            let inner = preprocess(&t, p.parent().unwrap_or(dir), depth + 1)?;
+            let serves: String = inner.lines().find_map(|l| is_directive(l).and_then(|(d, a)| if d == "serves" { Some(a.to_string()) } else { None })).unwrap_or_default();
+            let mut pending_fn = false;
+            let mut buf: Vec<String> = vec![];
+            let flush = |buf: &mut Vec<String>, pending_fn: &mut bool, out: &mut String| {
+                if *pending_fn {
+                    let has_props = buf.iter().any(|l| matches!(is_directive(l), Some(("props", _))));
+                    let mut it = buf.drain(..);
+                    if let Some(first) = it.next() { out.push_str(&first); out.push('\n'); }
+                    if !has_props && !serves.is_empty() { out.push_str(&format!("  @props {}\n", serves)); }
+                    out.push_str("  @opt included\n");
+                    for l in it { out.push_str(&l); out.push('\n'); }
+                } else {
+                    for l in buf.drain(..) { out.push_str(&l); out.push('\n'); }
+                }
+                *pending_fn = false;
+            };
+            for l in inner.lines() {
+                match is_directive(l) {
+                    Some(("unit", _)) | Some(("serves", _)) => continue,
+                    Some(("prelude", a)) => { flush(&mut buf, &mut pending_fn, &mut out); out.push_str(&format!("@prelude {}\n", a)); }
+                    Some((d, _)) if matches!(d, "fn" | "lift" | "raw" | "spec" | "type" | "impl" | "endimpl" | "const" | "derive" | "use" | "enum-eq" | "path-map" | "type-map" | "method-map" | "assume" | "not-under-contract" | "stub-eq" | "trusted-allow") => {
+                        flush(&mut buf, &mut pending_fn, &mut out);
+                        pending_fn = matches!(d, "fn" | "lift");
+                        buf.push(l.to_string());
+                    }
+                    _ => buf.push(l.to_string()),
+                }
+            }
+            flush(&mut buf, &mut pending_fn, &mut out);
+        } else {
+            out.push_str(line);
+            out.push('\n');
+        }
+    }
+    Ok(out)
+}
+
 pub fn parse(text: &str) -> Result<Unit, String> {
     let mut unit = Unit::default();
     // split into (directive, args, body, line)
@@ -165,7 +212,7 @@ pub fn parse(text: &str) -> Result<Unit, String> {
         match d.as_str() {
             "unit" => unit.name = a,
             "serves" => unit.serves = a.split_whitespace().map(String::from).collect(),
-            "prelude" => unit.prelude.extend(a.split_whitespace().map(String::from)),
+            "prelude" => { for p in a.split_whitespace() { if !unit.prelude.iter().any(|x| x == p) { unit.prelude.push(p.to_string()); } } }
             "enum-eq" => unit.enum_eq.extend(full_trim.split_whitespace().map(String::from)),
             "stub-eq" => unit.stub_eq.extend(full_trim.split_whitespace().map(String::from)),
             "type-map" => {
